@@ -564,7 +564,14 @@ def r_guard(prog, tier):
                                  if (prog.callee(c_[1], f) or ('?',))[0] not in ('treeanalysis', 'trees', 'treeoutput')]:
                     verdict = None
                     why = 'guard %s not recognised' % (related[:1] or 'delegated to a helper')
-                    if related and all(any(isinstance(t, str) and 'gap_type(%s)' % tree in t for t in fa[1:]) for fa in related) \
+                    for fa in related:
+                        # gap degree compared with another bound than 0: `not gap_degree(tree) > 1` lets degree 1 through
+                        if fa[0] == 'cmp' and fa[1] == G and fa[2] in ('<=', '<') and fa[3].isdigit() \
+                                and int(fa[3]) - (1 if fa[2] == '<' else 0) >= 1:
+                            verdict = False
+                            why = 'the write is allowed for `%s %s %s`: a tree of gap degree %d is discontinuous, yet it is written ' \
+                                  '(and neither refused nor skipped)' % (fa[1], fa[2], fa[3], int(fa[3]) - (1 if fa[2] == '<' else 0))
+                    if verdict is None and related and all(any(isinstance(t, str) and 'gap_type(%s)' % tree in t for t in fa[1:]) for fa in related) \
                             and any(isinstance(x_, ast.Call) and prog.callee(x_, f) == ('treeanalysis', 'gap_type') for x_ in walk_own(f.node)):
                         verdict = False
                         why = 'the guard asks treeanalysis.gap_type(%s), which looks at the root and its children only: a tree whose ' \
@@ -745,6 +752,10 @@ def r_guard(prog, tier):
                             for fa in c.facts:
                                 if fa[0] == 'truthy' and fa[1].endswith("].data['head']"):
                                     vals[const_str(c.value)] = fa
+                                if fa[0] == 'none' and fa[1].endswith("].data['head']"):
+                                    hs = False
+                                    hwhy = 'the side is chosen by whether `%s` is None, not by its truth value: a child marked ' \
+                                           'head=False is "not None" as well, so every binary node gets the same side' % fa[1]
                     consts = [c for c in cs if c.kind == 'value' and const_str(c.value) in ('LEFT', 'RIGHT')]
                     if consts and a.loops:
                         outside = [c for c in consts if a.loops[0] not in cfg.nodes[c.node].loops]
@@ -756,7 +767,7 @@ def r_guard(prog, tier):
                                    'it: after the first such node every later binary node gets the same side' % (
                                        const_str(outside[0].value), const_str(inside[0].value))
                             continue
-                    if len(vals) == 2:
+                    if len(vals) == 2 and hs is not False:
                         l, r = vals['LEFT'], vals['RIGHT']
                         first = "%s[0].data['head']" % chv
                         if l == ('truthy', first, True) and r == ('truthy', first, False):
